@@ -115,12 +115,18 @@ impl TryFrom<&AddCertificate> for CertifiedKeyWrapper {
         } else {
             add.certificate.names.clone()
         };
-        // DNS names compare case-insensitively and rustls hands the SNI over
-        // lower-cased: index the names lower-cased, so that a SAN or an
-        // operator override written with capitals is still served.
+        // Certificate names are DNS names. rustls hands the SNI over in its
+        // ASCII form (A-labels, lower-case): index the names in that form, so
+        // that a SAN or an operator override written with capitals or as a
+        // U-label is still served. A name containing '/' is not a DNS name and
+        // must never reach the name trie, which would read it as a `/regex/`
+        // segment and serve the certificate for every name the regex matches.
         let overriding_names: Vec<String> = overriding_names
             .into_iter()
-            .map(|name| name.to_ascii_lowercase())
+            .filter(|name| !name.contains('/'))
+            .map(|name| {
+                ::idna::domain_to_ascii(&name).unwrap_or_else(|_| name.to_ascii_lowercase())
+            })
             .collect();
 
         let expiration = add
